@@ -34,6 +34,7 @@ package jpeg
 //@   ensures [C02] !r0 ==> jr.err != nil
 //@   ensures [C02] old(jr.err) != nil ==> !r0 && pos(jr.br) == old(pos(jr.br))
 //@   loop 0 invariant jr.br != nil && pos(jr.br) >= old(pos(jr.br)) && jr.discarded == old(jr.discarded) + uint32(pos(jr.br) - old(pos(jr.br)))
+//@   loop 0 invariant old(jr.err) != nil ==> jr.err != nil && pos(jr.br) == old(pos(jr.br))
 //@   loop 0 decreases ite(jr.err == nil, 1, 0), lim(jr.br) - pos(jr.br)
 
 // Handlers: on success the stream resumes exactly at the next marker: 2 marker bytes + the segment length further.
